@@ -1071,15 +1071,31 @@ def fixed_top_cases():
     return out
 
 
+OVER_65535_PROBE = {'kind': 'pdus', 'classic': False, 'nodes': 2, 'geometry': [['le', 1021, 2], ['le', 251, 3]],
+                    'delays': [[], []], 'sends': [[0, 1, 0x40, 65531, 0], [0, 1, 0x41, 65532, 0]]}
+
+
 def run(ctx) -> None:
     vloop.selftest()
-    for i, case in enumerate(fixed_top_cases()):
-        if i % ctx.nshards == ctx.shard:
+    # Medium probe (every shard): can a PDU longer than 65535 bytes cross the virtual link at all?
+    # If not, that failure is recorded once here (VIOLATION or KNOWN-FINDING by its signature) and the
+    # generated cases stay at payloads <= 65531 so that the search continues behind it.
+    run_pdus_case(ctx, OVER_65535_PROBE)
+    broken = any(sig.startswith('deliver/lost/pdu_over_65535/') for sig in ctx.failures)
+    if ctx.shard == 0 and not broken:
+        for case in fixed_top_cases():
             run_pdus_case(ctx, case)
+
+    def run_pdus(case):
+        if broken and any(s[3] > 65531 for s in case['sends']):
+            case = dict(case, sends=[[s[0], s[1], s[2], min(s[3], 65531), s[4]] for s in case['sends']])
+            ctx.exclude('payload 65532..65535 (L2CAP PDU longer than 65535 bytes) clipped to 65531')
+        run_pdus_case(ctx, case)
+
     quick = ctx.quick
-    ctx.hyp('pdus', lambda c: run_pdus_case(ctx, c),
-            pdus_case(cap=4096 if quick else 65535, budget=1200 if quick else 30000, top=not quick),
-            max_examples=ctx.n(700, 30000))
+    ctx.hyp('pdus', run_pdus,
+            pdus_case(cap=4096 if quick else 65535, budget=1200 if quick else 20000, top=not quick),
+            max_examples=ctx.n(600, 24000))
     ctx.hyp('iso', lambda c: run_iso_case(ctx, c), iso_case(), max_examples=ctx.n(500, 24000))
     ctx.hyp('raw', lambda c: run_raw_case(ctx, c), raw_case_strategy(), max_examples=ctx.n(500, 24000))
     ctx.hyp('asm', lambda c: run_raw_case(ctx, c), asm_case_strategy(), max_examples=ctx.n(3000, 160000))
@@ -1093,7 +1109,8 @@ def run(ctx) -> None:
         ('host_fragmented_pdu', 20), ('hand_cut_pdu', 20),
     ):
         ctx.floor(label, n)
-    if ctx.shard == 0:
+    ctx.floor('len_top', 1)
+    if ctx.shard == 0 and not broken:
         ctx.floor('len_top', 3)
         ctx.floor('pdu_over_65535', 3)
 
